@@ -50,3 +50,27 @@ def check_eq_through_getitem(ctx, rule, rel, cls, eq):
            bool(via) and not raw,
            f"{cls}.__eq__ compares the raw backing store: a container whose elements are still "
            "serialised compares unequal to the same container after a lookup", eq.lineno)
+
+
+def check_lazy_attributes(ctx, rule, rel, cls, methods):
+    """getters that parse a cached attribute on demand (`self._x = X.deserialize(self._x)`) must store the parsed object
+    back into the attribute they return: otherwise every access hands out a new throw-away object and edits are lost"""
+    n = 0
+    for name, f in methods:
+        des = [c for c in ast.walk(f) if isinstance(c, ast.Call) and isinstance(c.func, ast.Attribute) and c.func.attr == "deserialize"
+               and any(isinstance(a, ast.Attribute) and isinstance(a.value, ast.Name) and a.value.id == "self" for a in c.args)]
+        if not des:
+            continue
+        for c in des:
+            attr = next(a.attr for a in c.args if isinstance(a, ast.Attribute) and isinstance(a.value, ast.Name) and a.value.id == "self")
+            n += 1
+            stored = any(isinstance(st, ast.Assign) and st.value is c and any(
+                isinstance(t, ast.Attribute) and isinstance(t.value, ast.Name) and t.value.id == "self" and t.attr == attr for t in st.targets)
+                for st in ast.walk(f))
+            rets = [r for r in ast.walk(f) if isinstance(r, ast.Return) and r.value is not None]
+            returns_attr = all(isinstance(r.value, ast.Attribute) and isinstance(r.value.value, ast.Name) and r.value.value.id == "self"
+                               and r.value.attr == attr for r in rets) and bool(rets)
+            ctx.ob(rule, rel, f"{cls}.{name}", f"self.{attr} = {ast.unparse(c.func)}(self.{attr}); return self.{attr}", stored and returns_attr,
+                   f"{cls}.{name} parses self.{attr} on demand but does not keep the parsed object (stored back: {stored}, returned from the attribute: "
+                   f"{returns_attr}): changes made through the returned object are lost", f.lineno)
+    return n
